@@ -11,9 +11,9 @@ from sismic import exceptions as sx
 ID = 'C05'
 LEVEL = 'exploration'
 BUDGET = {'quick': 20, 'thorough': 240}
-STREAM_ORDER = ['ops', 'guards', 'mat', 'chart', 'cfg']
+STREAM_ORDER = ['ops', 'guards', 'moves', 'mat', 'chart', 'cfg']
 RULE = ('well-formed chart drawn per run whose code sends events (with and without delay); the seeded scheduler interleaves 1-3 logical '
-        'clients calling queue() - an Event instance, a name with keyword parameters, or both in one call - with delays from {none,0,1,2,2,5} (ties on purpose), the statechart own sends, clock moves (0, exactly to the '
+        'clients calling queue() - an Event instance, a name with keyword parameters, or both in one call - with delays from {none,0,1,2,2,5} (ties on purpose; in a third of the runs also -1 and -4: due since before it was queued), in a third of the runs the clock also moves while guards are evaluated, the statechart own sends, clock moves (0, exactly to the '
         'next due time, one tick short of it, far beyond) and execute_once; a two-queue reference model runs in lock-step and the recorded '
         'history is checked at the end after a drain (every uid consumed exactly once, never before its due time); non-trivial = a '
         'consuming step taken while >= 2 events were pending; distinct = distinct (chart, pending-queue snapshot relative to the step time)')
@@ -27,13 +27,25 @@ TECHNIQUE = 'deterministic simulation: seeded interleaving of clients, sends, cl
 
 def run(ch, tier):
     res = Result()
-    cfg = swarm(ch.s('cfg'), Cfg(sends=True, delays=True, eventless=True), tier)
+    cfg = swarm(ch.s('cfg'), Cfg(sends=True, delays=True, eventless=True, neg_delays=ch.s('cfg').flag(1, 3)), tier)
     sp = gen_spec(ch.s('chart'), cfg)
     from sim.probes import SimClock
     # the interpreter may be created on a clock that is already running late, and events may be queued
     # (with delays) before its first step
     start = ch.s('cfg').pick([0.0, 0.0, 7.0, 100.5])
     sim = Sim(sp, statechart=materialise(sp, ch, res), clock=SimClock(start=start))
+    if ch.s('cfg').flag(1, 3):
+        # the clock also moves while a step is under way (whenever a guard is evaluated): what is due is decided by the step
+        # time, not by what the clock shows later in the step
+        mv = ch.s('moves')
+
+        def on_probe(kind):
+            if kind == 'guard':
+                d = mv.pick([0, 0, 1, 2, 5])
+                if d:
+                    sim.clock.advance(d)
+                    res.stats['fault_clock_moved_inside_step'] += 1
+        sim.P.on_probe = on_probe
     pre_ops = ch.s('ops')
     for _ in range(pre_ops.int(0, 2)):
         nm0 = pre_ops.pick(['ea', 'eb', 'zz'])
@@ -107,7 +119,7 @@ def run(ch, tier):
     for _ in range(n):
         op = ops.weighted([('step', 5), ('queue', 5), ('advance', 3), ('queue2', 1)])
         if op == 'queue':
-            d = ops.pick([None, None, 0, 1, 2, 2, 5])
+            d = ops.pick([None, None, 0, 1, 2, 2, 5] + ([-1, -4] if cfg.neg_delays else []))
             client = ops.choice(3)
             uid = sim.queue(ops.pick(names), d)
             hist.append(('queue', 'client%d' % client, uid, d, float(sim.lastT)))
